@@ -15,6 +15,7 @@ import Driver.MtHist
 import Driver.BddChk
 import Driver.ParseChk
 import Driver.MetaChk
+import Driver.CacheChk
 import Driver.LtsEngineChk
 import Driver.BinRelChk
 import Driver.BddSimChk
@@ -522,6 +523,7 @@ def dispatch (kind : String) (args res : List String) : Except String (Findings 
   | "achain" => utilKind "antichain containers" (AchainChk.check args res)
   | "bddsim" => utilKind "bottom-up BDD downward simulation" (BddSimChk.check args res)
   | "binrel" => utilKind "BinaryRelation" (BinRelChk.check args res)
+  | "cacheh" => utilKind "Util::Cache / CachedBinaryOp" (CacheChk.check args res)
   | "cliop" => checkCliOp args res
   | "apisweep" =>
     -- API sweep of C20: nothing functional is judged (a sanitizer report / crash never reaches this point); the tag is
